@@ -361,36 +361,53 @@ example : ensureTree (.error (.osError (some Gen.EEXIST))) true = .ok () ∧
 /-! ### write_to_tempfile -/
 
 /-- **write_to_tempfile** — for every content (whatever object exposes it) and every path
-    argument: when ensure_tree (if called), mkstemp and os.write succeed, the new file holds
-    exactly the content, its descriptor is closed and the call returns; ensure_tree is called
-    iff the path argument is truthy -/
-theorem write_to_tempfile_exact (content : Bytes) (pathTruthy : Bool) (ensure : Except Exc Unit)
-    (h : pathTruthy = true → ensure = .ok ()) :
-    writeToTempfile content pathTruthy ensure (.ok ()) (.ok ()) =
+    argument: when ensure_tree (if called) and mkstemp succeed and os.write transfers all the
+    bytes, the new file holds exactly the content, its descriptor is closed and the call
+    returns; ensure_tree is called iff the path argument is truthy.
+    PARTIAL: the property does not assume that os.write transfers everything; when it
+    transfers fewer bytes (`write_to_tempfile_short_write`, known finding N7) the code
+    returns normally with a prefix of the content. -/
+theorem write_to_tempfile_exact_partial (content : Bytes) (pathTruthy : Bool)
+    (ensure : Except Exc Unit) (n : Nat) (h : pathTruthy = true → ensure = .ok ())
+    (hn : content.length ≤ n) :
+    writeToTempfile content pathTruthy ensure (.ok ()) (.ok n) =
       ⟨.ok (), pathTruthy, some content, true⟩ := by
+  have ht : content.take n = content := List.take_of_length_le hn
   cases pathTruthy
-  · simp [writeToTempfile]
-  · simp [writeToTempfile, h rfl]
+  · simp [writeToTempfile, ht]
+  · simp [writeToTempfile, h rfl, ht]
 
-/-- … it returns only in that case, the file never holds anything but the content (or nothing,
-    when os.write failed), the descriptor is closed whenever a file was created, and whatever
-    escapes is the exception of the first failing call, unchanged -/
+/-- the negative: a short write (legal for write(2): huge buffers, full disks, signals) is not
+    noticed — the call returns and the file holds a proper prefix of the content -/
+theorem write_to_tempfile_short_write (content : Bytes) (n : Nat) (hn : n < content.length) :
+    let o := writeToTempfile content false (.ok ()) (.ok ()) (.ok n)
+    o.result = .ok () ∧ o.file = some (content.take n) ∧ content.take n ≠ content := by
+  refine ⟨by simp [writeToTempfile], by simp [writeToTempfile], fun h => ?_⟩
+  have := congrArg List.length h
+  simp [List.length_take] at this
+  omega
+
+/-- it returns only when all three calls succeed, the file never holds anything but what
+    os.write transferred of the content (or nothing, when os.write failed), the descriptor is
+    closed whenever a file was created, and whatever escapes is the exception of the first
+    failing call, unchanged -/
 theorem write_to_tempfile_spec (content : Bytes) (pathTruthy : Bool)
-    (ensure mkstemp write : Except Exc Unit) :
+    (ensure mkstemp : Except Exc Unit) (write : Except Exc Nat) :
     let o := writeToTempfile content pathTruthy ensure mkstemp write
     (o.result = .ok () ↔
-      (pathTruthy = true → ensure = .ok ()) ∧ mkstemp = .ok () ∧ write = .ok ()) ∧
-    (o.result = .ok () → o.file = some content) ∧
-    (∀ f, o.file = some f → f = content ∨ (f = [] ∧ ∃ e, write = .error e)) ∧
+      (pathTruthy = true → ensure = .ok ()) ∧ mkstemp = .ok () ∧ ∃ n, write = .ok n) ∧
+    (∀ f, o.file = some f →
+      (∃ n, write = .ok n ∧ f = content.take n) ∨ (f = [] ∧ ∃ e, write = .error e)) ∧
     o.ensureCalled = pathTruthy ∧ (o.fdClosed = true ↔ o.file.isSome = true) ∧
     (∀ e, o.result = .error e →
       (pathTruthy = true ∧ ensure = .error e) ∨ mkstemp = .error e ∨ write = .error e) := by
   cases pathTruthy <;> rcases ensure with e1 | ⟨⟩ <;> rcases mkstemp with e2 | ⟨⟩ <;>
-    rcases write with e3 | ⟨⟩ <;> simp [writeToTempfile]
+    rcases write with e3 | n <;> simp [writeToTempfile]
 
-example : (writeToTempfile [1, 2, 3] true (.ok ()) (.ok ()) (.ok ())).file = some [1, 2, 3] ∧
-    (writeToTempfile [] false (.error .valueError) (.ok ()) (.ok ())).file = some [] ∧
-    (writeToTempfile [1] true (.error (.osError (some 20))) (.ok ()) (.ok ())).result =
+example : (writeToTempfile [1, 2, 3] true (.ok ()) (.ok ()) (.ok 3)).file = some [1, 2, 3] ∧
+    (writeToTempfile [1, 2, 3] true (.ok ()) (.ok ()) (.ok 2)).file = some [1, 2] ∧
+    (writeToTempfile [] false (.error .valueError) (.ok ()) (.ok 0)).file = some [] ∧
+    (writeToTempfile [1] true (.error (.osError (some 20))) (.ok ()) (.ok 1)).result =
       .error (.osError (some 20)) ∧
     (writeToTempfile [1] true (.ok ()) (.ok ()) (.error (.osError (some 28)))).file = some [] := by
   decide
